@@ -91,16 +91,23 @@ func failf(st *vx.Stats, kind string, format string, a ...any) {
 }
 
 func modeName() string {
+	m := "default"
 	if debugMode {
-		return "debug.SetEnabled(true)"
+		m = "debug.SetEnabled(true)"
 	}
-	return "default"
+	if variant != "" {
+		m += ",build-tag:" + variant
+	}
+	return m
 }
 
-// caseKey: runs in the two modes are different cases
+// caseKey: runs in different modes / build variants are different cases
 func caseKey(k string) string {
 	if debugMode {
-		return "debug-mode:" + k
+		k = "debug-mode:" + k
+	}
+	if variant != "" {
+		k = "build-tag-" + variant + ":" + k
 	}
 	return k
 }
